@@ -228,6 +228,11 @@ func runPrintSlots(p *Program, r *RuleResult) {
 					continue
 				}
 				final, fromField := conversionFieldMap(p, conv)
+				if final != nil && namedOf(final.Signature.Results().At(0).Type()) != nil && namedOf(final.Signature.Results().At(0).Type()) != pi.T {
+					built := namedOf(final.Signature.Results().At(0).Type()).Obj().Name()
+					r.add(name, "action-of-production", Violated, p.pos(pi.Fn.Pos()), fmt.Sprintf("the text printed for %s is the production whose action builds a %s: it parses back to a different constructor, and two different types print alike (their printed form is the memo key of type equality)", pi.T.Obj().Name(), built))
+					continue
+				}
 				if final == nil || namedOf(final.Signature.Results().At(0).Type()) != pi.T {
 					r.add(name, "action-of-production", Undecided, p.pos(pi.Fn.Pos()), "the conversion of "+resT.Obj().Name()+" does not build the printed type")
 					continue
